@@ -399,6 +399,8 @@ class SharedInst:
                    (v.bus_adr(v.local_index(2, 0)), 1, full), (v.bus_adr(v.local_index(2, 0)), 1, 0)]
             if small:
                 ops = ops[:3]
+            if small == 2 and per:
+                ops = [ops[0], ops[2]]          # managers after the first: idle / enable all
             per.append([(t,) + op for t in range(1 << v.n) for op in ops])
         size = 1
         for p in per:
